@@ -125,6 +125,57 @@ def r1_operand_roles(F, R):
                 R.bad(f"{meth}|{vname}|missing", f"`{meth}` has no arm for {vname}", loc(m))
 
 
+@rule("C02", "C02.k.gen-kill-read-the-operand-table", floor=2)
+@rule("C08", "R1.c.gen-kill-read-the-operand-table", floor=2)
+def r1c_gen_kill(F, R):
+    """the use and definition sets of the dataflow analyses (`gen_reg`, `kill_reg`) are derived from the operand-role table (`reads_from` / `writes_to`); if one of them enumerates node kinds itself, every kind must give exactly the payload's rs1,rs2 (rd) - a kind left to a wildcard (`jalr`) reads nothing for the analyses while the table says it reads rs1"""
+    variants = {v["name"]: v for v in F.adt(PNODE)["variants"]}
+    for meth, src, want in (("gen_reg", "reads_from", {"rs1", "rs2"}), ("kill_reg", "writes_to", {"rd"})):
+        try:
+            p = F.method(PNODE, meth, trait="HasGenKillInfo")
+        except Exception:
+            p = None
+        if not p:
+            raise Anchor(f"HasGenKillInfo::{meth} for ParserNode not found")
+        f = F.fn(p)
+        body = f["hir"]["value"]
+        try:
+            m = self_match(F, p, PNODE)
+        except Anchor:
+            m = None
+        uses_table = any(n.get("k") == "MethodCall" and n["name"] == src for n in walk(body, pats=False))
+        if m is None:
+            if uses_table:
+                R.ok(f"{meth}", detail=f"{meth} is computed from self.{src}()", where=f["sp"])
+            else:
+                R.bad(f"{meth}", f"{meth} neither calls `{src}()` nor enumerates the node kinds: where do its registers come from?", f["sp"])
+            continue
+        seen = {}
+        wild = None
+        for vname, arm in arm_table(m):
+            if vname == "_":
+                wild = arm
+                continue
+            b = payload_binding(arm, vname)
+            seen[vname] = (fields_read(arm["body"], b) if b else set(), arm)
+        bad = 0
+        for vname, v in variants.items():
+            sty = v["fields"][0]["ty"]
+            sfields = {n for n, _ in F.struct_fields(sty)}
+            expect = want & sfields
+            if vname in seen:
+                got, arm = seen[vname]
+            elif wild is not None:
+                got, arm = (set(), wild) if not any(n.get("k") == "MethodCall" and n["name"] == src for n in walk(wild["body"], pats=False)) else (expect, wild)
+            else:
+                got, arm = set(), m
+            if got != expect:
+                bad += 1
+                R.bad(f"{meth}|{vname}", f"`{meth}` enumerates the node kinds itself and for {vname} uses the fields {sorted(got) or 'none'}, while the operand table `{src}` gives {sorted(expect)}: the analyses and the table disagree about what `{vname.lower()}` {'reads' if meth == 'gen_reg' else 'writes'} (an indirect `jalr t0` no longer keeps t0 live)", loc(arm))
+        if not bad:
+            R.ok(f"{meth}", detail=f"{meth} enumerates all {len(variants)} node kinds in agreement with {src}", where=loc(m))
+
+
 # ----------------------------------------------------------------------------- R2
 def from_str_table(F, R, ty, key):
     p = F.method(ty, "from_str", trait="core::str::traits::FromStr")
